@@ -139,6 +139,19 @@ class Lower:
         if r != n and depth < 5:
             t = self.tparse_norm(r)
             if t is not None: return t
+        if depth < 5:
+            # spellings clang uses for the same specialisation: size_t(-1) as -1 / 18446744073709551615, tuple with and without std::
+            for a, b in (('18446744073709551615', '-1'), (',tuple<', ',std::tuple<'), ('<tuple<', '<std::tuple<')):
+                if a in n:
+                    rec = self.idx.rec_by_name.get(n.replace(a, b))
+                    if rec is not None: return ('rec', rec)
+        if depth < 5 and n.endswith('>') and '<' in n:
+            # trailing template arguments left to a default that names an earlier parameter (multiplicity<0> = multiplicity<0,0>)
+            head = n[:n.index('<')]; args = split_top(n[n.index('<') + 1:-1])
+            pd = self.idx.tmpl_param_defaults.get(head.split('::')[-1], {})
+            while len(args) in pd and pd[len(args)] < len(args): args.append(args[pd[len(args)]])
+            rec = self.idx.rec_by_name.get('%s<%s>' % (head, ','.join(args)))
+            if rec is not None: return ('rec', rec)
         raise Unsupported('type: %s' % q)
 
     def tparse_norm(self, n):
@@ -349,10 +362,10 @@ class Lower:
         if nm not in self.deleters:
             self.deleters[nm] = None
             if t[0] == 'rec' and self.idx.is_polymorphic(t[1]):
-                call = '%s(p);' % self.need_dtor_dispatch(t[1])
+                self.deleters[nm] = 'void %s(%s * p)\n{\n  if (p) { %s(p); }\n}\n' % (nm, ct, self.need_dtor_dispatch(t[1], deleting=True))
             else:
                 call = self.destroy_stmt(t, '*p') or ''
-            self.deleters[nm] = 'void %s(%s * p)\n{\n  if (p) { %s vp_free(p); }\n}\n' % (nm, ct, call)
+                self.deleters[nm] = 'void %s(%s * p)\n{\n  if (p) { %s vp_free(p); }\n}\n' % (nm, ct, call)
             self.protos.append('void %s(%s * p);' % (nm, ct))
         return nm
 
@@ -569,9 +582,11 @@ class Lower:
             out.append(body)
         return out
 
-    def need_dtor_dispatch(self, srec):
+    def need_dtor_dispatch(self, srec, deleting=False):
+        """virtual destructor call through a pointer to srec; deleting=True: the deleting destructor (`delete p`): the storage of the
+        COMPLETE object is released, which starts before p when srec is not its first base"""
         sc = self.need_rec(srec)
-        nm = 'vd_dtor_' + sc
+        nm = ('vd_del_' if deleting else 'vd_dtor_') + sc
         if nm in self.dispatchers: return nm
         self.dispatchers[nm] = None
         stub = 'vs_dtor_' + sc
@@ -584,9 +599,9 @@ class Lower:
             rc = self.need_rec(r)
             if all(p == '_b0' for p in path): dyn = '((struct %s *)self)' % rc
             else: dyn = '((struct %s *)((char *)self - __builtin_offsetof(struct %s, %s)))' % (rc, rc, '.'.join(path))
-            cases.append('    case %s: %s(%s); return;' % (self.tag_of(rc), self.need_complete_dtor(r), dyn))
+            cases.append('    case %s: %s(%s);%s return;' % (self.tag_of(rc), self.need_complete_dtor(r), dyn, (' vp_free(%s);' % dyn) if deleting else ''))
         sig = 'void %s(struct %s * self)' % (nm, sc)
-        self.dispatchers[nm] = '%s\n{\n  switch (%s) {\n%s\n    case %s: %s(self); return;\n    default: vp_bad_dispatch(); return;\n  }\n}\n' % (sig, tagexpr, '\n'.join(cases), self.user_tag(srec), stub)
+        self.dispatchers[nm] = '%s\n{\n  switch (%s) {\n%s\n    case %s: %s(self);%s return;\n    default: vp_bad_dispatch(); return;\n  }\n}\n' % (sig, tagexpr, '\n'.join(cases), self.user_tag(srec), stub, ' vp_free(self);' if deleting else '')
         self.protos.append(sig + ';')
         return nm
 
